@@ -184,17 +184,25 @@ var c10RefCache = map[string]*c10Obs{}
 // c10Reference returns what request q produces on a fresh stack without any
 // access settings (empty global lists; the same profile, if any, with
 // access.EmptyProfile).
-func c10Reference(hasProf bool, q c10Query) (o *c10Obs) {
-	key := fmt.Sprintf("%v|%+v", hasProf, q)
+func c10Reference(of c10Config, q c10Query) (o *c10Obs) {
+	// The same world (profile presence, message configuration, device lookup
+	// behaviour) without any access settings.
+	conf := c10Config{Prof: "none", Msg: of.Msg, DB: of.DB}
+	if of.Prof != "none" {
+		conf.Prof = "empty"
+	}
+	key := fmt.Sprintf("%s|%s|%s|%+v", conf.Prof, conf.Msg, conf.DB, q)
 	if o = c10RefCache[key]; o != nil {
 		return o
 	}
-	conf := c10Config{Prof: "none"}
-	if hasProf {
-		conf.Prof = "empty"
-	}
 	o = c10NewStack(conf).serve(q, c10ReqID)
-	if len(o.Writes) != 1 || (o.Err != "" && !q.malformedECS()) {
+	switch {
+	case len(o.Writes) == 1 && (o.Err == "" || q.malformedECS()):
+		// Processed normally.
+	case conf.DB == "error" && conf.Prof != "none" && !q.Anonymous && len(o.Writes) == 0 && o.Err != "":
+		// A failed device lookup makes the handler return the error (the
+		// server then answers SERVFAIL).
+	default:
 		vrt.Fatalf("reference stack does not process %+v normally: %s", q, o)
 	}
 	c10RefCache[key] = o
@@ -216,8 +224,6 @@ func c10Run(r *vrt.Run, c c10Case) (fs []vrt.Finding) {
 // configuration c.Conf.
 func c10RunOn(r *vrt.Run, c c10Case, s *c10Stack) (fs []vrt.Finding) {
 	want, reason := c10Decide(c.Conf, c.Q)
-	hasProf := c.Conf.Prof != "none"
-
 	o := s.serve(c.Q, c10ReqID)
 	r.Trans(1)
 
@@ -232,7 +238,14 @@ func c10RunOn(r *vrt.Run, c c10Case, s *c10Stack) (fs []vrt.Finding) {
 	} else if c.Q.ECS != "" {
 		ecs = "+ecs"
 	}
-	r.Class(fmt.Sprintf("%s/%s/%s%s/prof-%s -> %s", want, reason, c.Q.Proto, ecs, c.Conf.Prof, outcome))
+	variant := ""
+	if c.Conf.Msg != "" {
+		variant += "+msg-" + c.Conf.Msg
+	}
+	if c.Conf.DB != "" {
+		variant += "+db-" + c.Conf.DB
+	}
+	r.Class(fmt.Sprintf("%s/%s/%s%s/prof-%s%s -> %s", want, reason, c.Q.Proto, ecs, c.Conf.Prof, variant, outcome))
 	r.State(fmt.Sprintf("%s|%s|%s", want, reason, o))
 
 	if k := want.String() + "/" + c.Conf.Prof; !c10Noted[k] && c.Conf.Prof != "empty" {
@@ -244,7 +257,21 @@ func c10RunOn(r *vrt.Run, c c10Case, s *c10Stack) (fs []vrt.Finding) {
 
 	switch want {
 	case c10Blocked:
-		if c.Q.malformedECS() && (!dropped || o.Err != "") {
+		if o.AutoDevices > 0 {
+			// Not a verdict: see c10Rec.AutoDevice.
+			r.Count("hint:automatic-device-created-by-a-dropped-request", 1)
+			if !c10Noted["autodev"] {
+				c10Noted["autodev"] = true
+				r.Note("hint (not a verdict): DoT requests with a human-readable device id that are then dropped by the access check (all clauses, incl. global subnet and global name) had profiledb.Interface.CreateAutoDevice called for them by the device finder, which runs before the access check; counted in hint:automatic-device-created-by-a-dropped-request")
+			}
+		}
+		if c.Conf.DB == "error" && !c.Q.Anonymous && c.Conf.Prof != "none" && (!dropped || o.Err != "") {
+			// One key of its own: the device lookup runs, and its error is
+			// returned, before the access check.
+			fs = append(fs, vrt.F("access/blocked-request-with-failed-device-lookup-answered",
+				"%s must be dropped (%s) without any response, but the profile database error of its device lookup is returned by the handler (the server answers SERVFAIL, serverbase.go serveDNSMsgInternal): response writer got %q, handler error %q",
+				c10Desc(c), reason, o.Writes, o.Err)...)
+		} else if c.Q.malformedECS() && (!dropped || o.Err != "") {
 			// One key of its own: the answer comes from the handling of the
 			// ECS option, which runs before the access check.
 			fs = append(fs, vrt.F("access/blocked-request-with-malformed-ecs-answered",
@@ -254,7 +281,7 @@ func c10RunOn(r *vrt.Run, c c10Case, s *c10Stack) (fs []vrt.Finding) {
 			fs = append(fs, vrt.F("access/blocked-request-answered",
 				"%s must be dropped (%s) but the response writer got %q", c10Desc(c), reason, o.Writes)...)
 		}
-		if o.Err != "" && !c.Q.malformedECS() {
+		if o.Err != "" && !c.Q.malformedECS() && c.Conf.DB != "error" {
 			fs = append(fs, vrt.F("access/blocked-request-returns-error",
 				"%s must be dropped (%s) but the handler returned the error %q, which the server answers with SERVFAIL",
 				c10Desc(c), reason, o.Err)...)
@@ -276,14 +303,14 @@ func c10RunOn(r *vrt.Run, c c10Case, s *c10Stack) (fs []vrt.Finding) {
 		s.am.cur = s.empty
 		po := s.serve(probe, c10ReqID)
 		r.Trans(1)
-		ref := c10Reference(hasProf, probe)
+		ref := c10Reference(c.Conf, probe)
 		if po.String() != ref.String() {
 			fs = append(fs, vrt.F("access/blocked-request-left-trace",
 				"after the dropped %s the identical question from an unblocked client is processed differently from a fresh stack\n   after : %s\n   fresh : %s",
 				c10Desc(c), po, ref)...)
 		}
 	case c10Served:
-		ref := c10Reference(hasProf, c.Q)
+		ref := c10Reference(c.Conf, c.Q)
 		switch {
 		case o.String() == ref.String():
 			// Processed normally.
@@ -296,7 +323,7 @@ func c10RunOn(r *vrt.Run, c c10Case, s *c10Stack) (fs []vrt.Finding) {
 				c10Desc(c), o, ref)...)
 		}
 	case c10Either:
-		ref := c10Reference(hasProf, c.Q)
+		ref := c10Reference(c.Conf, c.Q)
 		if !traceless && o.String() != ref.String() {
 			fs = append(fs, vrt.F("access/request-neither-dropped-nor-processed-normally",
 				"%s (rule meaning ambiguous, both outcomes accepted) is neither dropped without a trace nor processed normally\n   got : %s\n   want: %s",
@@ -322,10 +349,19 @@ func c10Desc(c c10Case) string {
 	default:
 		conf = append(conf, "profile "+c.Conf.Prof)
 	}
+	if c.Conf.Msg != "" {
+		conf = append(conf, "profile message configuration invalid: "+c.Conf.Msg)
+	}
+	if c.Conf.DB != "" {
+		conf = append(conf, "device lookup: "+c.Conf.DB)
+	}
 
 	ecs := ""
 	if q.ECS != "" {
 		ecs = " with ECS " + q.ECS
+	}
+	if q.SNI != "" {
+		ecs += " with TLS server name " + q.SNI
 	}
 
 	return fmt.Sprintf("request %s %s%s from %s (ASN %d) over %s [%s]",
@@ -423,6 +459,49 @@ func TestVerifC10(t *testing.T) {
 		func(c c10Case) []vrt.Finding { return c10Run(r, c) },
 	)
 
+	// Parts 5-7 use a reduced product: global lists {empty, full} x every
+	// profile configuration x (name, type) pairs x client x ASN.
+	var redConfs []c10Config
+	for _, conf := range confs {
+		fullG := len(conf.GNets) == 2 && len(conf.GRules) == len(c10GRuleSets[1])
+		if conf.Prof != "none" && ((conf.GNets == nil && conf.GRules == nil) || fullG) {
+			redConfs = append(redConfs, conf)
+		}
+	}
+	r.Bound("reduced_configurations_parts5to7", len(redConfs))
+
+	// Part 5: the found profile's message constructor cannot be built
+	// (negative filtered-response TTL, nil blocking mode).  The profile is
+	// still the request's profile: verdicts as with a valid configuration.
+	for _, msg := range []string{"negttl", "nilmode"} {
+		vrt.Part(r, "badmsg-"+msg, c10VariantGen(redConfs, clients, asns, func(c *c10Case) bool {
+			c.Conf.Msg = msg
+
+			return true
+		}), func(c c10Case) []vrt.Finding { return c10Run(r, c) })
+	}
+
+	// Part 6: the device lookup fails (profile database error) or the device
+	// fails authentication: no profile is known, the global clauses still
+	// apply and a blocked request still gets no response.
+	for _, db := range []string{"error", "authfail"} {
+		vrt.Part(r, "devfail-"+db, c10VariantGen(redConfs, clients, asns, func(c *c10Case) bool {
+			c.Conf.DB = db
+
+			return true
+		}), func(c c10Case) []vrt.Finding { return c10Run(r, c) })
+	}
+
+	// Part 7: automatic devices: DoT requests with a human-readable device id
+	// of a profile with the feature enabled; the new device belongs to the
+	// profile, so all clauses apply.
+	vrt.Part(r, "autodev", c10VariantGen(redConfs, clients, asns, func(c *c10Case) bool {
+		c.Conf.DB = "auto"
+		c.Q.SNI = c10HumanSNI
+
+		return c.Q.Proto == "dot"
+	}), func(c c10Case) []vrt.Finding { return c10Run(r, c) })
+
 	// Part 4: the profile survives a restart.  The profile object is used by
 	// requests, written to the profile database's real file cache, loaded
 	// back, and must then give every request the same fate.
@@ -447,6 +526,15 @@ func TestVerifC10(t *testing.T) {
 					emit(c10FCCase{Conf: conf, Use: use})
 				}
 			}
+			// A negative filtered-response TTL is copied through the file
+			// cache unvalidated; the loaded profile must still apply its
+			// access settings.
+			for _, conf := range fcConfs {
+				conf.Msg = "negttl"
+				for _, use := range []string{"unused", "clean-name"} {
+					emit(c10FCCase{Conf: conf, Use: use})
+				}
+			}
 		},
 		func(c c10FCCase) []vrt.Finding { return c10RunFileCache(r, c, dir, fcReqs) },
 	)
@@ -454,6 +542,36 @@ func TestVerifC10(t *testing.T) {
 
 	r.Finish()
 	os.Exit(0)
+}
+
+// c10VariantPairs are the (name, type) pairs of the reduced parts.
+var c10VariantPairs = []struct {
+	name string
+	qt   uint16
+}{
+	{"clean.test.", dns.TypeA}, {"gblocked.test.", dns.TypeA}, {"g6.test.", dns.TypeAAAA},
+	{"pblocked.test.", dns.TypeA}, {"p6.test.", dns.TypeAAAA},
+}
+
+// c10VariantGen enumerates configuration x protocol x (name, type) x client x
+// ASN; mod turns the case into the variant of the part or rejects it.
+func c10VariantGen(confs []c10Config, clients []string, asns []uint32, mod func(c *c10Case) bool) func(emit func(c10Case)) {
+	return func(emit func(c10Case)) {
+		for _, conf := range confs {
+			for _, proto := range c10Protos {
+				for _, p := range c10VariantPairs {
+					for _, cl := range clients {
+						for _, asn := range asns {
+							c := c10Case{Conf: conf, Q: c10Query{Client: cl, ASN: asn, Name: p.name, QType: p.qt, Proto: proto}}
+							if mod(&c) {
+								emit(c)
+							}
+						}
+					}
+				}
+			}
+		}
+	}
 }
 
 // ---- Part filecache -----------------------------------------------------------
